@@ -27,7 +27,8 @@ rm -f tests/seed_demo.rs
 echo "suite_with_change=$suite_ok demo_with_change_exit=$demo_with demo_without_change_exit=$demo_without" | tee $OUT/confirm.result
 fi
 # Now against /repo
-cd /repo
+REPO=${SEED_REPO:-/repo}; VERIF=${SEED_VERIF:-/verif}
+cd $REPO
 if ! git diff --quiet; then echo "REPO-DIRTY"; exit 9; fi
 PATCH=$OUT/patch.diff
 [ -f $OUT/patch.rebased.diff ] && PATCH=$OUT/patch.rebased.diff
@@ -36,9 +37,9 @@ elif git apply -C1 --check $PATCH 2>/dev/null; then git apply -C1 $PATCH;
 elif patch -p1 -F3 --dry-run < $PATCH >/dev/null 2>&1; then patch -p1 -F3 < $PATCH >>$LOG 2>&1;
 else echo "PATCH-DOES-NOT-APPLY(/repo)"; git reset -q --hard HEAD; exit 8; fi
 git diff > $OUT/patch.applied-to-repo.diff
-cd /verif
+cd $VERIF
 for c in $CHECKS; do
   ./check $c > /tmp/seed/$P-out/$V/check-$c.log 2>&1; rc=$?
   echo "check $c exit=$rc: $(grep -c '^VIOLATION' /tmp/seed/$P-out/$V/check-$c.log) violation lines; $(grep '^VIOLATION' -A1 /tmp/seed/$P-out/$V/check-$c.log | head -2 | tail -1 | cut -c1-300)"
 done
-cd /repo && git checkout -q -- . && git clean -fdq -e target && git status --short | head -3
+cd $REPO && git checkout -q -- . && git clean -fdq -e target && git status --short | head -3
